@@ -163,12 +163,15 @@ PROPS["C04"] = {
     "harnesses": ["h_ctc"],
     "workloads": lambda tier, seed: [
         {"harness": "h_ctc", "tag": "ctc", "args": ["c04", seed, 250 if tier == "quick" else 8000]},
+        {"harness": "h_ctc", "tag": "elementary", "args": ["c04t", seed, 400 if tier == "quick" else 12000]},
     ],
     "nontrivial": _ctc_nontrivial,
     "rule": "random constraints with a planted feasible point: scalar DAGs (f(x) in K, K thin/thick/half-bounded) contracted by CtcFwdBwd (also after calls on other boxes), "
             "vector/matrix-valued f(x) in Y with vector and matrix variables and applied functions, systems of 1-3 constraints (=,<=,<,>=,>) built through SystemFactory and contracted by "
             "CtcHC4 (ratio, incremental), Ctc3BCid (s3b, scid, vhandled, var_min_width), CtcAcid (ct_ratio), CtcCompo, with and without an explicit impact context, 6 calls per object; "
             "per call: contraction check, 11 sample points (planted point, just outside the contracted bounds, removed slabs) decided feasible/infeasible exactly; "
+            "workload c04t: 1-2 constraints with elementary functions (exp ... atanh, atan2, chi, ...) whose right-hand sides contain the rigorous MPFR enclosure of the value at a planted point "
+            "(feasible by construction), contracted by CtcFwdBwd, CtcHC4, Ctc3BCid, CtcAcid, CtcCompo on 8 boxes per object: the point must be kept, the box contracted; "
             "non-trivial = a feasible point was tested, or the box was contracted, or the model box was compared",
     "assumptions": ["the HC4 model covers scalar DAGs over var const + - * / minus sqr sqrt abs max min sign pow(1,2); other operators only through exact point sampling",
                     "CtcNewton is exercised under C09"],
